@@ -14,8 +14,8 @@ ALL = ['C%02d' % i for i in range(1, 21)]
 def run_one(pid, tier, only=None):
     try:
         mod = importlib.import_module('sa.rules.' + pid)
-    except ModuleNotFoundError as e:
-        print('ANALYSIS-ERROR property=%s no rule module: %s' % (pid, e))
+    except BaseException as e:    # a broken rule module is an analysis error, never a violation
+        print('ANALYSIS-ERROR property=%s cannot load rule module: %s: %s' % (pid, type(e).__name__, e))
         return 2
     try:
         ctx = report.Ctx(pid, tier=tier, seed=int(os.environ.get('VERIF_SEED', '0') or 0))
